@@ -89,10 +89,20 @@ def engine_assumptions(ck, an, classes=None):
     no dynamic attribute hooks, descriptors, metaclasses, exec/eval or
     monkey-patching of in-package classes."""
     n = 0
+    # scoped to what the rules of this run consulted: the functions reachable from the ones they named and the
+    # classes those functions belong to / touch (a setter in an unrelated class cannot change this property's verdict)
+    scope_funcs, scope_classes = an.scope()
+    if classes is None:
+        classes = scope_classes
+    related = set(classes)
+    for c in an.prog.classes.values():
+        names = {b.name for b in an.prog.mro(c)}
+        if names & set(classes):
+            related |= names        # bases of a consulted class (inherited setters) and its subclasses
     for c in an.prog.classes.values():
         if c.module.name.startswith("_fixture"):
             continue
-        if classes is not None and c.name not in classes and not any(b.name in classes for b in an.prog.mro(c)):
+        if c.name not in related and not any(b.name in related for b in an.prog.mro(c)):
             continue
         n += 1
         hooks = sorted(set(c.methods) & DYNAMIC_HOOKS)
@@ -104,6 +114,8 @@ def engine_assumptions(ck, an, classes=None):
         ck.check(not setters, "MRO", "S0.no-property-setters", c.name, c.loc, f"{c.name} has no property setters", f"{c.name} defines property setters {[m.name for m in setters]}: a plain store may run code",
                  construct=f"{c.name} setter")
     for f in an.functions():
+        if f.qual not in scope_funcs:
+            continue
         for node in walk_function(f.node):
             if isinstance(node, ast.Call) and isinstance(node.func, ast.Name) and node.func.id in ("exec", "eval", "compile", "__import__", "globals", "locals", "vars") and f.short not in ("IEvent._public_attr",):
                 ck.fail("MRO", "S0.no-dynamic-code", f.short, f"{f.module.relpath}:{node.lineno}", f"{f.short} uses {node.func.id}(): the analysed source is not what runs", construct=stmt_text(node))
